@@ -541,6 +541,7 @@ type epResult struct {
 	podSteps int64
 	jobSteps []int64
 	partInputs int
+	atFault    string // what the faulted node had made durable when the first cycle ended
 	fired    bool
 	jobs     int
 	killed   int
@@ -569,8 +570,23 @@ func (w *c09world) episode(fp *faultPoint, twin *epResult) *epResult {
 		trk := newTracker(w, pd.dataDir)
 		var rec []fsRec
 		recording := fp == nil
+		live := map[string]*progress{}
+		relOf := func(p string) string {
+			if strings.HasPrefix(p, root) {
+				return filepath.ToSlash(strings.TrimPrefix(p, root+"/"))
+			}
+			return p
+		}
 		simrt.SetFSObserver(func(op *simrt.FSOp, err error) {
 			trk.observe(op, err)
+			if err == nil && op.Mut && op.Node != nil {
+				g := live[op.Node.Name]
+				if g == nil {
+					g = &progress{}
+					live[op.Node.Name] = g
+				}
+				g.advance(op.Kind, relOf(op.Path), relOf(op.Path2))
+			}
 			if recording && op.Node != nil {
 				r := fsRec{idx: op.Index, kind: op.Kind, mut: op.Mut, n: op.N, node: op.Node.Name}
 				if strings.HasPrefix(op.Path, root) {
@@ -650,6 +666,11 @@ func (w *c09world) episode(fp *faultPoint, twin *epResult) *epResult {
 		recording = false
 		simrt.SetFSInjector(nil)
 		pd.onJob = nil
+		if g := live[w.node]; g != nil {
+			ep.atFault = g.label() // the faulted node stopped here (kill / pod crash)
+		} else {
+			ep.atFault = progress{}.label()
+		}
 		ep.podSteps = pd.sn.Steps()
 		for _, j := range pd.jobs {
 			ep.jobSteps = append(ep.jobSteps, j.stEnd-j.stBase)
@@ -724,7 +745,7 @@ func (w *c09world) episode(fp *faultPoint, twin *epResult) *epResult {
 					needBoot = false
 				}
 				if err := pd.cycle(); err != nil {
-					simrt.Event("CYCLE-ERROR %v", err)
+					simrt.Event("CYCLE-ERROR %s", strings.ReplaceAll(err.Error(), root, ""))
 				}
 			})
 			if !ok {
@@ -745,6 +766,22 @@ func (w *c09world) episode(fp *faultPoint, twin *epResult) *epResult {
 	return ep
 }
 
+// advance folds one successful mutating operation into the progress of a job.
+func (g *progress) advance(kind, rel, rel2 string) {
+	state := "data/" + compaction.ManifestBasePath + "/"
+	inState := strings.Contains(rel, state) || strings.Contains(rel2, state)
+	switch {
+	case kind == "rename" && inState:
+		*g = progress{manifest: true} // a new job's manifest: start over
+	case kind == "rename" && strings.HasSuffix(rel2, ".parquet") && strings.HasPrefix(rel2, "data/"):
+		g.output = true
+	case kind == "remove" && inState && strings.HasSuffix(rel, ".json"):
+		g.mdel = true
+	case kind == "remove" && strings.HasSuffix(rel, ".parquet") && strings.HasPrefix(rel, "data/"):
+		g.deleted++
+	}
+}
+
 // progressAt derives what was durable before fs op number idx of the window.
 func progressAt(ops []fsRec, node string, idx int64) progress {
 	var g progress
@@ -752,17 +789,7 @@ func progressAt(ops []fsRec, node string, idx int64) progress {
 		if o.node != node || o.idx >= idx || !o.mut {
 			continue
 		}
-		inState := strings.Contains(o.rel, "data/"+compaction.ManifestBasePath+"/") || strings.Contains(o.rel2, "data/"+compaction.ManifestBasePath+"/")
-		switch {
-		case o.kind == "rename" && inState:
-			g = progress{manifest: true}
-		case o.kind == "rename" && strings.HasSuffix(o.rel2, ".parquet") && strings.HasPrefix(o.rel2, "data/"):
-			g.output = true
-		case o.kind == "remove" && inState && strings.HasSuffix(o.rel, ".json"):
-			g.mdel = true
-		case o.kind == "remove" && strings.HasSuffix(o.rel, ".parquet") && strings.HasPrefix(o.rel, "data/"):
-			g.deleted++
-		}
+		g.advance(o.kind, o.rel, o.rel2)
 	}
 	return g
 }
@@ -993,6 +1020,9 @@ func runC09(planAny any, cfg simrt.Config) *simkit.Outcome {
 		}
 		for _, v := range ep.verdicts {
 			label := fp.Label
+			if fp.Kind == "step" {
+				label = ep.atFault + ".killed-between-storage-operations"
+			}
 			if ep.partInputs > 0 && strings.HasPrefix(v.rule, "C09.rows-duplicated") {
 				// diagnosis, not oracle: the duplicate rows came from a complete
 				// "<output>.part" staging file that a later job read as an input
